@@ -167,9 +167,10 @@ class Strh(ThumbInstruction):
         opcode = 0x10
         assert self.rn.num < 8
         assert self.rt.num < 8
+        assert self.imm5 % 2 == 0
         rn = self.rn.num
         rt = self.rt.num
-        imm5 = self.imm5 << 1
+        imm5 = self.imm5 >> 1
         tokens = self.get_tokens()
         tokens[0][0:3] = rt
         tokens[0][3:6] = rn
@@ -190,9 +191,10 @@ class Ldrh(ThumbInstruction):
         opcode = 0x11
         assert self.rn.num < 8
         assert self.rt.num < 8
+        assert self.imm5 % 2 == 0
         rn = self.rn.num
         rt = self.rt.num
-        imm5 = self.imm5
+        imm5 = self.imm5 >> 1
         tokens = self.get_tokens()
         tokens[0][0:3] = rt
         tokens[0][3:6] = rn
